@@ -13,7 +13,7 @@ __all__ = [
 
 import collections
 import logging
-from collections.abc import Iterable, Iterator, Sequence
+from collections.abc import Iterable, Iterator, Mapping, Sequence
 from typing import SupportsIndex, TypeVar
 
 import onnx_ir
@@ -257,19 +257,13 @@ class GraphInitializers(collections.UserDict[str, "_core.Value"]):
     """The initializers of a Graph as ``dict[str, Value]`` with additional mutation methods."""
 
     def __init__(self, graph: _core.Graph, dict=None, /, **kwargs):
-        # Perform checks first in _set_graph before modifying the data structure with super().__init__()
         data = {}
         if dict is not None:
             data.update(dict)
         if kwargs:
             data.update(kwargs)
         self._graph = graph
-        # Check all values first so that nothing is modified when any of them is rejected
-        for value in data.values():
-            self._check_value(value)
-        for value in data.values():
-            self._set_graph(value)
-
+        # update() checks every entry before modifying anything
         super().__init__(data)
 
     def _check_value(self, value: _core.Value) -> None:
@@ -294,24 +288,32 @@ class GraphInitializers(collections.UserDict[str, "_core.Value"]):
             return
         value._graph = None
 
-    def __setitem__(self, key: str, value: _core.Value) -> None:
-        """Set an initializer for the graph."""
+    def _check_item(self, key: str, value: _core.Value, name: str | None = None) -> None:
+        """All the checks of ``self[key] = value``. Must not modify anything.
+
+        ``name`` is the name the value is about to receive in the same call, if any.
+        """
         if not isinstance(value, _core.Value):
             raise TypeError(f"value must be a Value object, not {type(value)}")
         if not isinstance(key, str):
             raise TypeError(f"Value name must be a string, not {type(key)}")
         if key == "":
             raise ValueError("Value name cannot be an empty string")
-        if value.name and key != value.name:
+        name = value.name or name
+        if name and key != name:
             raise ValueError(
-                f"Key '{key}' does not match the name of the value '{value.name}'. Please use the value.name as the key."
+                f"Key '{key}' does not match the name of the value '{name}'. Please use the value.name as the key."
             )
         if value.producer() is not None:
             raise ValueError(
                 f"Value '{value}' is produced by a node and cannot be a graph initializer"
             )
-        # Perform all checks before modifying anything
         self._check_value(value)
+
+    def __setitem__(self, key: str, value: _core.Value) -> None:
+        """Set an initializer for the graph."""
+        # Perform all checks before modifying anything
+        self._check_item(key, value)
         if not value.name:
             logger.info("Value %s does not have a name, setting it to '%s'", value, key)
             value.name = key
@@ -323,6 +325,24 @@ class GraphInitializers(collections.UserDict[str, "_core.Value"]):
         # the dictionary is not modified
         self._set_graph(value)
         super().__setitem__(key, value)
+
+    def update(self, other=(), /, **kwargs) -> None:
+        """Update the initializers. Nothing is modified when any entry is rejected."""
+        if isinstance(other, Mapping):
+            items = [(key, other[key]) for key in other]
+        elif hasattr(other, "keys"):
+            items = [(key, other[key]) for key in other.keys()]
+        else:
+            items = [(key, value) for key, value in other]
+        items.extend(kwargs.items())
+        # Names this call is going to give to values that do not have one yet
+        pending_names: dict[int, str] = {}
+        for key, value in items:
+            self._check_item(key, value, pending_names.get(id(value)))
+            if not value.name:
+                pending_names.setdefault(id(value), key)
+        for key, value in items:
+            self[key] = value
 
     def __delitem__(self, key: str) -> None:
         """Delete an initializer from the graph."""
